@@ -126,7 +126,7 @@ def timedGuards (xc dpos : Bool) (dval hours minutes sn sd sdecs : Nat) : TimedR
   else if hours > 0 && minutes ≥ 60 then .refused
   else if sdecs > 2 then .skip      -- the speed checks apply to the time rounded to hundredths (binary `round`): not modelled
   else if speedBad dpos dval ((3600 * hours + 60 * minutes) * sd + sn) sd then .refused
-  else if !(dpos && (3600 * hours + 60 * minutes) * sd + sn > 0) && xc && minutes == 0 then .refused
+  else if !(dpos && (3600 * hours + 60 * minutes) * sd + sn > 0) && xc && minutes == 0 && hours == 0 then .refused
   else .time hours minutes (sn * 100 / sd)
 
 /-- the checks on the parsed fields: seconds = sn0 / sd0 with sdecs0 decimals -/
